@@ -3,6 +3,7 @@ Props/C02 — Word-level bit kernels are exact on every word.
 Property theorems only; helper lemmas live in Proof/Kernels.lean.
 -/
 import SuccinctlyVerif.Proof.Kernels
+import SuccinctlyVerif.Proof.KernelsBP
 namespace SV.Props.C02
 open SV
 
@@ -33,5 +34,30 @@ theorem select_ctz_eq (x : BitVec 64) (k : Nat) : selectCtz x k = selectInWordSp
 
 example : selectCtz 0x8000_0000_00F0_F0F0#64 12 = 63 ∧ selectCtz 0x8000_0000_00F0_F0F0#64 13 = 64 := by
   decide +kernel
+
+/-- `find_unmatched_close_in_word` = index of the first close with no open to its left in the
+64-bit list (linear excess scan), 64 if there is none. -/
+theorem find_unmatched_close_eq (x : BitVec 64) :
+    findUnmatchedCloseInWord x = (BP.findUnmatchedClose (wordBits x)).getD 64 :=
+  Kernels.findUnmatchedCloseInWord_eq x
+
+-- "(()))(…": the first unmatched close is at bit 4
+example : findUnmatchedCloseInWord 0xFFFF_FFFF_FFFF_FFE3#64 = 4 := by decide +kernel
+
+/-- `find_close_in_word(word, p)` for every word and every `p`: `None` when `p ≥ 64`; `Some(p)` when
+bit `p` is a close (the documented degenerate case); otherwise the matching close of the open at
+`p` by the linear excess scan over the word's 64 bits, which is `None` exactly when the match lies
+beyond bit 63. -/
+theorem find_close_in_word_eq (x : BitVec 64) (p : Nat) :
+    findCloseInWord x p =
+      if p ≥ 64 then none
+      else if x.getLsbD p = false then some p
+      else BP.findClose (wordBits x) p :=
+  Kernels.findCloseInWord_eq x p
+
+-- "(()())" at bits 2..7: open at 2 matches close at 7; open at 8 has its match beyond bit 63
+example : findCloseInWord 0xFFFF_FFFF_FFFF_FF2F#64 2 = some 7
+    ∧ findCloseInWord 0xFFFF_FFFF_FFFF_FF2F#64 8 = none
+    ∧ findCloseInWord 0xFFFF_FFFF_FFFF_FF2F#64 4 = some 4 := by decide +kernel
 
 end SV.Props.C02
